@@ -554,14 +554,14 @@ def _is_logging(st):
 
 def finish_item():
     """RunTaskExecutable.finish_execution: the effects in program order -- which record files are written, when the
-    non-zero exit status raises, when the version's row is inserted and committed.  Effect codes: 1 args.json,
+    non-zero exit status raises, when the version's row is inserted and committed.  Effect codes: 6 a log is finished, 1 args.json,
     2 options.json, 3 raise TaskNonZeroExit, 4 insert_output_version, 5 commit_changes."""
     f = _find_method("conductor/execution/ops/run_task_executable.py", "RunTaskExecutable", "finish_execution")
     body = _body_without_docstring(f)
     leaves = {"self._serialize_args_options": "ser", "not self._args.empty()": "(negb args_empty)", "not self._options.empty()": "(negb opts_empty)",
               "handle.returncode != 0": "rc_nonzero", "self._version_to_record is not None": "has_version"}
-    ignore = {"handle.stdout.finish()", "handle.stderr.finish()"}
-    calls = [("self._args.serialize_json(", 1), ("self._options.serialize_json(", 2), ("ctx.version_index.insert_output_version(", 4), ("ctx.version_index.commit_changes(", 5)]
+    ignore = set()
+    calls = [("handle.stdout.finish()", 6), ("handle.stderr.finish()", 6), ("self._args.serialize_json(", 1), ("self._options.serialize_json(", 2), ("ctx.version_index.insert_output_version(", 4), ("ctx.version_index.commit_changes(", 5)]
 
     def cond(node):
         src = ast.unparse(node)
